@@ -368,9 +368,11 @@ func init() {
 					probeSigned := 0
 					probeTok := 3000
 					probe := shSession(r, probeTok)
+					probeSaved := false
 					{
 						rw := httptest.NewRecorder()
 						if err := store.Save(rw, httptest.NewRequest("GET", "https://"+host+"/", nil), shCopySession(probe)); err == nil {
+							probeSaved = true
 							for _, line := range rw.Result().Header.Values("Set-Cookie") {
 								pc := parseSetCookie(line)
 								if pc != nil && pc.MaxAge >= 0 {
@@ -384,6 +386,12 @@ func init() {
 						if redis {
 							mr.FlushAll()
 						}
+					}
+					if A < 0 && probeSaved {
+						// Save reported success and wrote no usable session cookie: the session just saved is not what the next request loads
+						c.violation("C10", "Save reported success but wrote no session cookie a browser keeps: the session just saved cannot be loaded by the next request",
+							map[string]interface{}{"cookie_name": name, "store": map[bool]string{true: "redis", false: "cookie"}[redis], "session_token_bytes": probeTok})
+						continue
 					}
 					if A < 0 {
 						c.violation("HARNESS", "probe save produced no cookie", map[string]interface{}{"name_len": len(name)})
